@@ -637,6 +637,6 @@ Fixpoint dec_top (n : nat) (st : dstate) {struct n} : res (list stmt) :=
          OK (s :: r)
   end.
 
-Definition decode_fuel (bs : list byte) : nat := S (S (length bs)).
+Definition decode_fuel (bs : list byte) : nat := 8 * length bs + 12.
 Definition decode (bs : list byte) : res (list stmt) :=
   dec_top (decode_fuel bs) (DState false bs).
